@@ -625,6 +625,26 @@ def tr_matrix_balance_pins(tree):
     return "Definition matrix_balance_pins : bool := true."
 
 
+def tr_float_division_pins(which):
+    """the float64 quotients whose floor / ceiling Proofs/FloatDiv.v proves exact: the expressions themselves are pinned
+    (a reciprocal multiplication or an integer shortcut is a different computation and needs a different theorem)"""
+    def go(tree):
+        if which == "extent":
+            src = ast.unparse(find(tree, "_region_to_extent"))
+            needles = ["yield (chrom_offset + int(np.floor(start / binsize)))", "yield (chrom_offset + int(np.ceil(end / binsize)))"]
+        elif which == "binnify":
+            src = ast.unparse(find(tree, "binnify"))
+            needles = ["n_bins = int(np.ceil(clen / binsize))", "binedges = np.arange(0, n_bins + 1) * binsize", "binedges[-1] = clen"]
+        else:
+            src = ast.unparse(find(tree, "CoolerCoarsener._aggregate"))
+            needles = ["rel_bin1 = np.floor(start1 / binsize).astype(int)", "rel_bin2 = np.floor(start2 / binsize).astype(int)"]
+        for needle in needles:
+            if needle not in src:
+                raise Unsupported(which + ": pinned float-division line changed: " + needle)
+        return f"Definition float_division_pins_{which} : bool := true."
+    return go
+
+
 ITEMS = [
     ("core/_rangequery.py", "comes_before", lambda t: tr_cmp(t, "_comes_before", "comes_before")),
     ("core/_rangequery.py", "contains", lambda t: tr_cmp(t, "_contains", "contains")),
@@ -640,6 +660,9 @@ ITEMS = [
     ("create/_create.py", "create_write_source_pins", tr_create_pins),
     ("_balance.py", "balance_filter_pins", tr_balance_filters),
     ("api.py", "matrix_balance_pins", tr_matrix_balance_pins),
+    ("core/_rangequery.py", "float_division_pins_extent", tr_float_division_pins("extent")),
+    ("util.py", "float_division_pins_binnify", tr_float_division_pins("binnify")),
+    ("_reduce.py", "float_division_pins_coarsen", tr_float_division_pins("coarsen")),
 ]
 
 
